@@ -16,6 +16,7 @@ import (
 	"strconv"
 	"strings"
 	"sync"
+	"sync/atomic"
 	"time"
 
 	"github.com/twmb/franz-go/pkg/kmsg"
@@ -1546,6 +1547,24 @@ func (c *Cluster) loadSegmentBatches(pd *partData, fsys fs, pdir string, base in
 	return result, nil
 }
 
+// truncateLogTail cuts a state log back to its last valid entry. The logs are
+// appended to with O_APPEND, so a corrupt tail left in place would sit in
+// front of every later entry and hide it from the next load.
+func (c *Cluster) truncateLogTail(fsys fs, path string, valid int64, size *atomic.Int64) {
+	f, err := fsys.OpenFile(path, os.O_WRONLY, 0o644)
+	if err != nil {
+		c.cfg.logger.Logf(LogLevelWarn, "%s: open for truncate: %v", path, err)
+		return
+	}
+	defer f.Close()
+	if err := f.Truncate(valid); err != nil {
+		c.cfg.logger.Logf(LogLevelWarn, "%s: truncate: %v", path, err)
+		return
+	}
+	f.Sync()
+	size.Store(valid)
+}
+
 func (c *Cluster) loadPIDsLog(fsys fs, dir string) error {
 	raw, err := fsys.ReadFile(filepath.Join(dir, "pids.log"))
 	if err != nil {
@@ -1559,6 +1578,7 @@ func (c *Cluster) loadPIDsLog(fsys fs, dir string) error {
 	entries, validBytes := readEntries(raw)
 	if validBytes < len(raw) {
 		c.cfg.logger.Logf(LogLevelWarn, "pids.log: discarding %d corrupt trailing bytes", len(raw)-validBytes)
+		c.truncateLogTail(fsys, filepath.Join(dir, "pids.log"), int64(validBytes), &c.pidsLogSize)
 	}
 	for _, e := range entries {
 		var entry pidLogEntry
@@ -1616,6 +1636,7 @@ func (c *Cluster) loadGroupsLog(fsys fs, dir string) error {
 	entries, validBytes := readEntries(raw)
 	if validBytes < len(raw) {
 		c.cfg.logger.Logf(LogLevelWarn, "groups.log: discarding %d corrupt trailing bytes", len(raw)-validBytes)
+		c.truncateLogTail(fsys, filepath.Join(dir, "groups.log"), int64(validBytes), &c.groupsLogSize)
 	}
 	r := replayGroupsLog(entries)
 
